@@ -657,12 +657,18 @@ func newObservedMap(pass *analysishelper.EnhancedPass, files []*ast.File) *Obser
 			}
 			funcDecl, ok := funcObjToFuncDecl[funcObj]
 			if !ok {
-				panic(funcObj.FullName() + " not found but this should not happen since we " +
-					"have parsed annotations once for every function declaration and the " +
-					"mappings should have been set up.")
+				// The callee has no declaration in this package (an interface method, or a function of
+				// another package), so there are no parameter names to match the annotation against.
+				// Keep searching for nested CallExpr nodes.
+				return true
 			}
 			callSite := CallSite{Fun: funcObj, Location: pass.PosToLocation(expr.Pos())}
 			for i, val := range accFromFieldList(set, funcDecl.Type.Params, true, true) {
+				if i >= len(expr.Args) {
+					// Fewer argument expressions than parameters: a variadic parameter given no argument,
+					// or `f(g())` spreading a multi-value call. There is no argument to annotate.
+					break
+				}
 				argLoc := pass.PosToLocation(expr.Args[i].Pos())
 				funcCallSiteParamAnnMap[callSite] = append(funcCallSiteParamAnnMap[callSite],
 					ArgLocAndVal{Location: argLoc, Val: val})
